@@ -2,6 +2,7 @@ package rules
 
 import (
 	"go/token"
+	"go/types"
 	"strings"
 
 	"golang.org/x/tools/go/ssa"
@@ -13,7 +14,7 @@ import (
 func init() {
 	register(&Prop{
 		ID:          "C07",
-		Explanation: "Decides the wiring between stripping and injecting identity headers: NewRequestHeaderInjector gives the same configured header list to the strip builder and the injector builder and composes alice.New(strip, inject) in that order, dropping the strip stage only when the builder returned nil; the strip builder collects header.Name exactly for entries without PreserveRequestValue and returns nil only for an empty collection; the strip handler calls the canonicalising http.Header.Del on the request's header for every collected name unconditionally before calling next; the upstream handler and the auth-only 202 writer are used only as the argument of p.headersChain.Then (whose result is what serves the request), headersChain has one writer, the constructor, fed from buildHeadersChain = alice.New(request injector, response injector); every value written by the injectors derives only from session.GetClaim(...), configured secret bytes, configured prefixes and constants, never from a header read; GetClaim returns no values for a nil session; the inject handlers inject scope.Session into the request's (response's) own header map before next; the legacy conversion sets PreserveRequestValue = !SkipAuthStripHeaders for every element after the last append.",
+		Explanation: "Decides the wiring between stripping and injecting identity headers: NewRequestHeaderInjector gives the same configured header list to the strip builder and the injector builder and composes alice.New(strip, inject) in that order, dropping the strip stage only when the builder returned nil; the strip builder collects header.Name exactly for entries without PreserveRequestValue and returns nil only for an empty collection; the strip handler calls the canonicalising http.Header.Del on the request's header for every collected name unconditionally before calling next; the upstream handler and the auth-only 202 writer are used only as the argument of p.headersChain.Then (whose result is what serves the request), headersChain has one writer, the constructor, fed from buildHeadersChain = alice.New(request injector, response injector); every value written by the injectors derives only from session.GetClaim(...), configured secret bytes, configured prefixes and constants, never from a header read; GetClaim returns no values for a nil session; the inject handlers inject scope.Session into the request's (response's) own header map before next; the legacy conversion sets PreserveRequestValue = !SkipAuthStripHeaders for every element after the last append; claim injectors add a header only on paths where the claim value itself was tested non-empty; getRequestHeaders adds each legacy header group exactly on the paths whose tested flags ask for it (PassBasicAuth||PassUserHeaders -> user headers, PassAccessToken, PassAuthorization, PassBasicAuth&&password -> basic-auth header).",
 		NotDecided:  "per-option value tables of the legacy flags (which claims each flag maps to); header-name normalisation by upstream servers (underscore/dash); values produced by GetClaim for each claim name.",
 		Run:         runC07,
 	})
@@ -25,6 +26,7 @@ func runC07(c *Ctx) {
 	r.Rule("R2-strip-semantics", "collect Name iff !PreserveRequestValue; strip = Header.Del on the request for every collected name, before next", 5)
 	r.Rule("R3-only-through-chain", "upstream handler and 202 writer only as headersChain.Then(...) arguments; headersChain has one writer from buildHeadersChain", 4)
 	r.Rule("R4-value-provenance", "injected values derive only from GetClaim, configured secrets/prefixes and constants; nil session injects nothing; handlers inject scope.Session", 7)
+	r.Rule("R6-empty-claims-and-legacy-table", "no header for an empty claim value; legacy flags select their header groups as documented", 6)
 	r.Rule("R5-legacy-conversion", "PreserveRequestValue = !SkipAuthStripHeaders applied to every element after the last append", 1)
 
 	// ---- R1 ---------------------------------------------------------------------------------
@@ -395,6 +397,7 @@ func runC07(c *Ctx) {
 	}
 
 	runC07R4R5(c)
+	runC07R6(c)
 }
 
 // fromRequestParam: v is *(&req.Header) for the given request parameter.
@@ -701,4 +704,149 @@ func (c *Ctx) injectedValueOK(v ssa.Value, getClaim *ssa.Function, depth int) st
 		}
 	}
 	return "an unrecognised origin (" + v.String() + ")"
+}
+
+// runC07R6: empty claims inject nothing; legacy flags select their header groups as documented.
+func runC07R6(c *Ctx) {
+	rule := "R6-empty-claims-and-legacy-table"
+	getClaim := c.Fn(rule, "(*pkg/apis/sessions.SessionState).GetClaim")
+	if getClaim == nil {
+		return
+	}
+	// every Header.Add in a claim injector closure happens on a path where the claim element itself is known non-empty
+	n := 0
+	for _, fn := range c.P.ModFns {
+		if prog.Short(prog.FnPkg(fn).Path()) != "pkg/header" || fn.Parent() == nil {
+			continue
+		}
+		usesClaims := false
+		for _, b := range fn.Blocks {
+			for _, in := range b.Instrs {
+				if call, ok := in.(*ssa.Call); ok && call.Call.StaticCallee() == getClaim {
+					usesClaims = true
+				}
+			}
+		}
+		if !usesClaims {
+			continue
+		}
+		fn := fn
+		c.Walk(rule, fn, func(p *walk.Path) {
+			for i, s := range p.Steps {
+				call, ok := s.In.(*ssa.Call)
+				if !ok || call.Call.StaticCallee() == nil || call.Call.StaticCallee().Name() != "Add" || call.Call.StaticCallee().Signature.Recv() == nil || !isHTTPHeader(call.Call.StaticCallee().Signature.Recv().Type()) {
+					continue
+				}
+				n++
+				key := "non-empty-claim|" + fnKey(fn)
+				// some element of GetClaim's result is assumed != "" before the Add
+				okGuard := eqConstAtom(p, i, false, "", func(x walk.DV) bool {
+					u, ok := p.Resolve(x).V.(*ssa.UnOp)
+					if !ok {
+						return false
+					}
+					ia, ok := u.X.(*ssa.IndexAddr)
+					if !ok {
+						return false
+					}
+					gc, ok := ia.X.(*ssa.Call)
+					return ok && gc.Call.StaticCallee() == getClaim
+				})
+				if okGuard {
+					c.ok(rule, key, s.In, "header added only for a non-empty claim value")
+				} else {
+					c.bad(rule, key, s.In, "a header is added without the claim value itself having been tested non-empty: an empty claim yields a header (e.g. a bare prefix)", p, i)
+				}
+			}
+		})
+	}
+	if n == 0 {
+		c.R.Unknown(rule, "non-empty-claim|none", "-", "no claim-driven Header.Add found in pkg/header")
+	}
+	// legacy request headers: flag -> header group table (from the option documentation)
+	grh := c.Fn(rule, "(*pkg/apis/options.LegacyHeaders).getRequestHeaders")
+	if grh == nil {
+		return
+	}
+	type row struct {
+		helper string
+		cond   func(f map[string]bool, known map[string]bool, pwNonEmpty, pwKnown bool) (must, mustNot bool)
+	}
+	flagF := map[string]*types.Var{}
+	for _, n := range []string{"PassBasicAuth", "PassUserHeaders", "PassAccessToken", "PassAuthorization"} {
+		flagF[n] = c.Field(rule, "pkg/apis/options.LegacyHeaders."+n)
+	}
+	pwF := c.Field(rule, "pkg/apis/options.LegacyHeaders.BasicAuthPassword")
+	helpers := map[string]*ssa.Function{}
+	for _, h := range []string{"getBasicAuthHeader", "getPassUserHeaders", "getPreferredUsernameHeader", "getPassAccessTokenHeader", "getAuthorizationHeader"} {
+		helpers[h] = c.Fn(rule, "pkg/apis/options."+h)
+	}
+	for _, v := range flagF {
+		if v == nil {
+			return
+		}
+	}
+	if pwF == nil {
+		return
+	}
+	c.Walk(rule, grh, func(p *walk.Path) {
+		if _, ok := p.Exit.(*ssa.Return); !ok {
+			return
+		}
+		at := p.End()
+		val, known := map[string]bool{}, map[string]bool{}
+		for _, a := range p.Atoms(at) {
+			if a.IsNil {
+				continue
+			}
+			for n, f := range flagF {
+				if isFieldLoadOf(a.DV.V, f) {
+					if known[n] && val[n] != a.Val {
+						return // the same (never written) option read twice with different outcomes: infeasible path
+					}
+					val[n], known[n] = a.Val, true
+				}
+			}
+		}
+		pwEmpty, pwKnown := false, false
+		for _, a := range p.Atoms(at) {
+			if b, ok := a.DV.V.(*ssa.BinOp); ok && !a.IsNil {
+				for _, pair := range [][2]ssa.Value{{b.X, b.Y}, {b.Y, b.X}} {
+					if s, ok := ConstString(pair[1]); ok && s == "" && isFieldLoadOf(pair[0], pwF) {
+						if pwKnown && pwEmpty != a.Val {
+							return
+						}
+						pwEmpty, pwKnown = a.Val, true
+					}
+				}
+			}
+		}
+		called := map[string]bool{}
+		for _, cl := range p.Calls() {
+			for h, fn := range helpers {
+				if fn != nil && cl.C.StaticCallee() == fn {
+					called[h] = true
+				}
+			}
+		}
+		check := func(helper string, must, mustNot bool, why string) {
+			key := "legacy|" + helper
+			switch {
+			case must && !called[helper]:
+				c.bad(rule, key, p.Exit, "legacy flags on this path require the "+helper+" headers ("+why+") but they are not added: configured names are then neither stripped nor injected", p, at)
+			case mustNot && called[helper]:
+				c.bad(rule, key, p.Exit, helper+" headers are added although the flags on this path do not ask for them ("+why+")", p, at)
+			default:
+				c.ok(rule, key, p.Exit, why)
+			}
+		}
+		// the path fixes a flag only if it tested it; a flag it never tested is unconstrained
+		T := func(n string) bool { return known[n] && val[n] }
+		F := func(n string) bool { return known[n] && !val[n] }
+		check("getPassUserHeaders", T("PassBasicAuth") || T("PassUserHeaders"), F("PassBasicAuth") && F("PassUserHeaders"), "PassBasicAuth || PassUserHeaders")
+		check("getPreferredUsernameHeader", T("PassBasicAuth") || T("PassUserHeaders"), F("PassBasicAuth") && F("PassUserHeaders"), "PassBasicAuth || PassUserHeaders")
+		check("getPassAccessTokenHeader", T("PassAccessToken"), F("PassAccessToken"), "PassAccessToken")
+		check("getAuthorizationHeader", T("PassAuthorization"), F("PassAuthorization"), "PassAuthorization")
+		check("getBasicAuthHeader", T("PassBasicAuth") && pwKnown && !pwEmpty, F("PassBasicAuth") || (pwKnown && pwEmpty), "PassBasicAuth && BasicAuthPassword != \"\"")
+	})
 }
